@@ -65,7 +65,7 @@ pub struct RetryCase {
     /// executor sees timers late; waiting longer than the backoff is allowed, shorter is not)
     #[serde(default = "one")]
     pub step_ms: u64,
-    /// builder call order (bit 0 predicate first, bit 1 max_attempts last, bit 2 budget first)
+    /// builder call order (bit 0 predicate first, bit 1 max_attempts last, bit 2 budget first, bit 3 the other attempts setter called earlier)
     #[serde(default)]
     pub setter_order: u8,
     /// inner calls use up the task's cooperative budget in the poll they complete in
@@ -120,7 +120,7 @@ fn case_strategy(_tier: Tier) -> BoxedStrategy<RetryCase> {
         budget,
         prop::collection::vec(request, 1..=4),
         prop::collection::vec(any::<u8>(), 0..=32),
-        (prop_oneof![5 => Just(1u64), 1 => Just(2u64), 1 => Just(5u64), 1 => 2u64..=40], 0u8..8, prop::bool::weighted(0.2), prop::bool::weighted(0.3)),
+        (prop_oneof![5 => Just(1u64), 1 => Just(2u64), 1 => Just(5u64), 1 => 2u64..=40], 0u8..16, prop::bool::weighted(0.2), prop::bool::weighted(0.3)),
     )
         .prop_map(
             |(max_attempts, per_request, backoff, predicate, budget, requests, order, (step_ms, setter_order, drain_budget, listeners))| RetryCase {
@@ -274,6 +274,15 @@ async fn interp(case: &RetryCase) -> Verdict {
         case.setter_order & 4 != 0,
     );
     if !attempts_last {
+        // bit 3: the other attempts setter was called earlier with other values; the later call
+        // is the one that counts
+        if case.setter_order & 8 != 0 {
+            b = if case.per_request {
+                b.max_attempts(case.max_attempts + 2)
+            } else {
+                b.max_attempts_fn(|r: &Req| (r.tag & 0xff) as usize + 3)
+            };
+        }
         b = if case.per_request {
             b.max_attempts_fn(|r: &Req| (r.tag & 0xff) as usize)
         } else {
@@ -396,6 +405,15 @@ async fn interp(case: &RetryCase) -> Verdict {
         }
     }
     if attempts_last {
+        // bit 3: the other attempts setter was called earlier with other values; the later call
+        // is the one that counts
+        if case.setter_order & 8 != 0 {
+            b = if case.per_request {
+                b.max_attempts(case.max_attempts + 2)
+            } else {
+                b.max_attempts_fn(|r: &Req| (r.tag & 0xff) as usize + 3)
+            };
+        }
         b = if case.per_request {
             b.max_attempts_fn(|r: &Req| (r.tag & 0xff) as usize)
         } else {
